@@ -51,6 +51,8 @@ def _type_name(t) -> str:
 
 
 def _is_null(v) -> bool:
+    if isinstance(v, np.ndarray) and (v.ndim == 0):
+        v = v[()]  # a zero dimensional array is its one element
     if not pd.api.types.is_scalar(v):
         return False  # a list, array, index or frame is a value, not a null
     res = pd.isnull(v)
